@@ -323,7 +323,7 @@ func (w *worker) runPath(prog *ssa.Program, fn *ssa.Function, cfg *JobCfg, item 
 	for k := range e.fnsEntered {
 		pr.Fns = append(pr.Fns, k)
 	}
-	mapOrd := false
+	mapOrd := e.env.mapRangeSeen // natively Go picks an arbitrary order: a replay may need several attempts
 	for _, d := range e.prefix {
 		if d.Kind == 'o' {
 			mapOrd = true
